@@ -3,8 +3,7 @@
 (* Case generation and design-level checks for C04.                        *)
 (*                                                                         *)
 (*   root -> base -> rule -> chosen(edit) -> edit(judged) -> run(config)   *)
-(*   root -> base -> rule -> second(edit 1) -> second2(rule 2)             *)
-(*        -> chosen(edits 1, 2) -> edit -> run                Tier "pairs" *)
+(*   root -> base -> rule -> chosen(edit)          Tier "slot2": edits only *)
 (*                                                                         *)
 (* (an edited program passes through phase "edit" before its configurations fan out)  *)
 (* A case = base program x one edit of the catalogue (EditsFor) x backend  *)
@@ -23,7 +22,7 @@
 (***************************************************************************)
 EXTENDS PipelineImpl, Edits, Json
 
-CONSTANTS Tier          \* "quick" | "thorough" | "pairs"
+CONSTANTS Tier          \* "quick" | "thorough" | "slot2"
 Bases == JsonDeserialize("bases.json")
 Deep == Tier = "thorough"
 
@@ -66,7 +65,7 @@ Chosen(case) ==
   /\ UNCHANGED <<bi, rule, cmd, brk, broken, expected, conf, pre>> /\ IdleUnchanged
 \* the edited program is judged once, before its configurations fan out (its command line will be a good one)
 Prepare ==
-  /\ phase = "chosen"
+  /\ phase = "chosen" /\ Tier # "slot2"
   /\ phase' = "edit"
   /\ Judge(CaseProg, GoodCmd("go", FALSE), cs)
   /\ pre' = PreLabels(CaseProg)
@@ -95,7 +94,7 @@ IdlCase(es) == [kind |-> "idl", rule |-> es[Len(es)].rule, edits |-> es]
 
 \* the edit is applied and judged once (phase "edit"), then the configurations fan out
 PickEdit ==
-  /\ phase = "rule" /\ rule \in IDLRules /\ Tier # "pairs"
+  /\ phase = "rule" /\ rule \in IDLRules /\ Tier # "slot2"
   /\ LET base == Bases[bi].prog
          es == EditsFor(base, rule, 1, Deep)
      IN \E k \in Idx(es) : Chosen(IdlCase(<<es[k]>>))
@@ -104,31 +103,21 @@ PickConfig ==
   /\ \E c \in Configs(rule) : Start(CaseProg, GoodCmd(c[1], c[2]), cs)
 
 PickCmdFault ==
-  /\ phase = "rule" /\ rule = "cmd" /\ Tier # "pairs"
+  /\ phase = "rule" /\ rule = "cmd" /\ Tier # "slot2"
   /\ \E b \in Backends : \E r \in BOOLEAN :
        LET fs == CmdFaults(b, r, Deep) IN
        \E k \in Idx(fs) : Start(Bases[bi].prog, fs[k][3], [kind |-> "cmd", rule |-> fs[k][1], variant |-> fs[k][2]])
 
 PickNone ==
-  /\ phase = "rule" /\ rule = "none" /\ Tier # "pairs"
+  /\ phase = "rule" /\ rule = "none" /\ Tier # "slot2"
   /\ \E b \in Backends : \E r \in BOOLEAN : Start(Bases[bi].prog, GoodCmd(b, r), [kind |-> "base"])
 
-\* two edits: the first in slot 1, the second (positions of the base program) in slot 2
-PickFirst ==
-  /\ phase = "rule" /\ rule \in IDLRules /\ Tier = "pairs"
-  /\ LET es == EditsFor(Bases[bi].prog, rule, 1, FALSE)
-     IN \E k \in Idx(es) : cs' = IdlCase(<<es[k]>>)
-  /\ phase' = "second"
-  /\ UNCHANGED <<bi, rule, cmd, brk, broken, expected, conf, pre>> /\ IdleUnchanged
-PickSecondRule ==
-  /\ phase = "second"
-  /\ \E r2 \in IDLRules : rule' = r2
-  /\ phase' = "second2"
-  /\ UNCHANGED <<bi, cs, cmd, brk, broken, expected, conf, pre>> /\ IdleUnchanged
-PickSecond ==
-  /\ phase = "second2"
+\* Tier "slot2": only the edits, with the fresh names of slot 2, for the second edit of two-edit
+\* combinations (composed by checks/c04.py from a slot-1 case and a slot-2 edit of the same base)
+PickEdit2 ==
+  /\ phase = "rule" /\ rule \in IDLRules /\ Tier = "slot2"
   /\ LET es == EditsFor(Bases[bi].prog, rule, 2, FALSE)
-     IN \E k \in Idx(es) : Chosen(IdlCase(cs.edits \o <<es[k]>>))
+     IN \E k \in Idx(es) : Chosen(IdlCase(<<es[k]>>))
 
 Run == /\ phase = "run"
        /\ BNextPre(CaseProg, cmd, pre)
@@ -138,12 +127,12 @@ Run == /\ phase = "run"
 \* broken, brk, expected and pre are functions of (bi, cs, cmd): they are left out of the fingerprint
 View == <<stage, outcome, filesWritten, li, mech, phase, bi, rule, cs, cmd, conf>>
 
-Next == PickBase \/ PickRule \/ PickEdit \/ Prepare \/ PickConfig \/ PickCmdFault \/ PickNone \/ PickFirst \/ PickSecondRule \/ PickSecond \/ Run
+Next == PickBase \/ PickRule \/ PickEdit \/ Prepare \/ PickConfig \/ PickCmdFault \/ PickNone \/ PickEdit2 \/ Run
 Spec == Init /\ [][Next]_vars
 
 -----------------------------------------------------------------------------
 (* design-level checks: a failure means the specification suite is inconsistent (exit 2) *)
-BaseValid == phase = "base" => ~IDLBroken(Bases[bi].prog)
+BaseValid == (phase = "base" /\ Tier # "slot2") => ~IDLBroken(Bases[bi].prog)
 \* every edit breaks the rule it stands for; every command-line fault is one
 EditBreaks == (phase = "run" /\ cs.kind \in {"idl", "cmd"}) =>
                  /\ broken
@@ -157,6 +146,7 @@ AllowedAgrees == (phase = "run" /\ stage = "done") =>
                                                           crash |-> outcome.crash, files |-> filesWritten]))
 DesignInvariants == BaseValid /\ EditBreaks /\ BaseAccepted /\ AKeepsStatement /\ AllowedAgrees
 
+Emit2 == (phase = "chosen" /\ Tier = "slot2") => PrintT("EDIT " \o ToJson([base |-> Bases[bi].name, edit |-> cs.edits[1]]))
 Emit == (phase = "run" /\ stage = "done") =>
           PrintT("CASE " \o ToJson([base |-> Bases[bi].name, case |-> cs, cmd |-> cmd,
                                     brokenRules |-> brk, broken |-> broken, expected |-> expected,
